@@ -198,7 +198,8 @@ def apply_fault(case, fault, pick):
         if not cands:
             return None
         u = units[cands[pick % len(cands)]]
-        u["tokens"] = [u["tokens"][0] + "=x"]
+        # round 9: the attached value may be empty ("--flag="), which is still a value given to a flag
+        u["tokens"] = [u["tokens"][0] + ("=x" if pick < 4 else "=")]
         return _tokens(units)
     if fault == "strip-required-value":
         cands = [i for i, u in enumerate(units) if u["kind"] == "opt" and u.get("mode") in ("req", "multi")
